@@ -201,32 +201,20 @@ impl CelValue {
         }
     }
 
-    /// Builds a list from evaluated elements (in order); a failed element fails
-    /// the whole list. Shared by the VM and the constant folder.
+    /// Builds a list from evaluated elements (in order). A failed element is kept
+    /// as an error value inside the list, so `{'k': unbound}.map(k, k)` still works.
+    /// Shared by the VM and the constant folder.
     pub(crate) fn list_of(values: Vec<CelValue>) -> CelValue {
-        for value in values.iter() {
-            if value.is_err() {
-                return value.clone();
-            }
-        }
-
         CelValue::List(values)
     }
 
     /// Builds a map from evaluated `(key, value)` entries in source order: the last
-    /// entry wins for a repeated key and a failed key or value fails the whole map.
-    /// Shared by the VM and the constant folder.
+    /// entry wins for a repeated key; a failed value is kept as an error value inside
+    /// the map. Shared by the VM and the constant folder.
     pub(crate) fn map_of(entries: Vec<(CelValue, CelValue)>) -> CelValue {
         let mut map = HashMap::new();
 
         for (key, value) in entries.into_iter() {
-            if key.is_err() {
-                return key;
-            }
-            if value.is_err() {
-                return value;
-            }
-
             match key {
                 CelValue::String(key) => {
                     map.insert(key, value);
